@@ -12,7 +12,8 @@ LEVEL_TEXT = ("Two halves. (A) Logic of object lifetime in libavoid's Router, ma
               "or pin, everything released after ~Router, and (strict legality) no use-after-free / re-entrant processing / "
               "internal assertion inside processActions; clusters (ClusterRef) are linked in Router::clusterRefs exactly while "
               "allocated and none survives ~Router, with a closed witness that the machine mirroring the code before /repo def6b3d "
-              "(stepOld) leaks them; plus closed counterexamples proving that documented-legal but not "
+              "(stepOld) leaks them; cluster boundaries that reference obstacle vertices (ReferencingPolygon) never point into a freed "
+              "obstacle when the router reads them (strict legality: restriction K6, necessary by a closed witness); plus closed counterexamples proving that documented-legal but not "
               "strictly legal histories DO hit those defects. (B) Runtime observation: generated legal API histories of all "
               "five libraries are executed in-process under AddressSanitizer + UndefinedBehaviorSanitizer + LeakSanitizer "
               "with the libraries' assertions on; leaks are attributed per case; after every Router operation the router's "
@@ -39,8 +40,9 @@ TECHNIQUE = "Lean 4 state-machine theorems (ownership logic) + sanitizer-instrum
 DESIGN_REF = "DESIGN.md section 6 C15"
 EXPLANATION = ("(A) Lean: Model/Lifecycle.lean is an executable model of Router object lifetime; Props/C15.lean proves, for every "
                "legal history, live_sets_refine, freed_once, no_dangling_action, conn_ends_valid, all_released (and no_fault "
-               "under strict legality), and proves by evaluation that the documented-legal histories K1, K2, K4 produce a leak / "
-               "assertion / use-after-free in the model (former K3/K5, repaired in /repo, are now proved legal and fault-free). (B) harness/c15.cpp generates strictly legal histories "
+               "under strict legality; clusters_linked, clusters_released, no_dangling_cluster_ref, cluster_refs_valid for clusters), and proves by "
+               "evaluation that the documented-legal histories K1, K2, K4, K6 produce a leak / "
+               "assertion / use-after-free in the model, and that the pre-def6b3d machine stepOld leaks clusters (former K3/K5, repaired in /repo, are now proved legal and fault-free). (B) harness/c15.cpp generates strictly legal histories "
                "(5-40 ops quick, up to 60 thorough; both routing modes; transactions on/off and switched; deleting shapes whose "
                "pins are in use; deleting connectors inside a pending transaction; move+delete in one transaction; deleting "
                "junctions; destroying the router with queued actions; setRoutingCheckpoints with 0-3 checkpoints, repeatedly on the same connector; "
